@@ -121,12 +121,38 @@ def model_check(work, fam, famfile, maxlen, relational=True):
     return gen, dist
 
 
-def validate_trace(work, name, trace):
-    """TLC trace validation of one trace file -> (ncases, messages)."""
+CHUNK_BYTES = int(os.environ.get("VERIF_CHUNK_MB", "40")) << 20   # TLC reads a whole trace file into memory: validate long traces in pieces of about this size
+
+
+def validate_one(work, name, trace):
     rc, out, d = tlc(work, "tv-" + name, "GetoptTrace", TRACE_CFG % dict(trace=trace), workers=1, heap="1500m", timeout=7200)
     if tlc_failed(rc, out):
         raise Broken("trace validation did not complete for %s (rc=%d):\n%s" % (name, rc, "\n".join(out.splitlines()[-30:])))
+    shutil.rmtree(d, ignore_errors=True)
     return tlc_messages(out)
+
+
+def validate_trace(work, name, trace):
+    """TLC trace validation of one trace file (cut at definition lines into pieces TLC can hold) -> messages."""
+    if os.path.getsize(trace) <= CHUNK_BYTES:
+        return validate_one(work, name, trace)
+    msgs, k, size, out = [], 0, 0, None
+    piece = trace + ".piece"
+    with open(trace) as f:
+        for line in f:
+            if line.startswith('{"ev":"def"') and size > CHUNK_BYTES:
+                out.close()
+                msgs += validate_one(work, "%s-%d" % (name, k), piece)
+                k, size, out = k + 1, 0, None
+            if out is None:
+                out = open(piece, "w")
+            out.write(line)
+            size += len(line)
+    if out is not None:
+        out.close()
+        msgs += validate_one(work, "%s-%d" % (name, k), piece)
+    os.remove(piece)
+    return msgs
 
 
 DRIVER_ENV = dict(GOENV)
